@@ -2,12 +2,13 @@
 # C08 = core explorer (default features) + the rkyv clause in two feature builds
 # (derived Archive: --features rkyv; manual Archive: --features rkyv,packed).
 TIER="${1:-quick}"
-OUT="${VERIF_OUT:-/verif}"
+ROOT="${VERIF_ROOT:-/verif}"
+OUT="${VERIF_OUT:-$ROOT}"
 rc=0
-/verif/target/release/fpmc C08 "$TIER"; r=$?; [ $r -gt $rc ] && rc=$r
+$ROOT/target/release/fpmc C08 "$TIER"; r=$?; [ $r -gt $rc ] && rc=$r
 for feat in rkyv rkyv,packed; do
-  d=/verif/target/feat-$(echo $feat | tr , -)
-  ( cd /verif/engine && CARGO_TARGET_DIR=$d cargo build --release --offline --features $feat ) >$d.build.log 2>&1 || { echo "MACHINERY-FAILURE: build with --features $feat failed" >&2; tail -20 $d.build.log >&2; exit 2; }
+  d=$ROOT/target/feat-$(echo $feat | tr , -)
+  ( cd $ROOT/engine && CARGO_TARGET_DIR=$d cargo build --release --offline --features $feat ) >$d.build.log 2>&1 || { echo "MACHINERY-FAILURE: build with --features $feat failed" >&2; tail -20 $d.build.log >&2; exit 2; }
   $d/release/fpmc C08R "$TIER" | sed 's/property=C08R/property=C08/'; r=${PIPESTATUS[0]}; [ $r -gt $rc ] && rc=$r
   mv "$OUT/evidence/C08R.json" "$OUT/evidence/.C08R-$(echo $feat | tr , -).json"
 done
